@@ -24,10 +24,11 @@ end
 
 /-- the integer look-ahead finds nothing: the integer stays an integer, nothing is consumed -/
 theorem lib_pft_int (f : Nat) (i : Int) (rest : List Nat)
-    (h : (!(0 ≤ i && i ≤ 9999999) || libIntFollowOk rest) = true) :
+    (h : (!(0 ≤ i && i ≤ 4294967295) || libIntFollowOk rest) = true) :
     ObjParser.parseFromToken (f + 1) (.int i) rest = .ok (.int i, rest) := by
   rw [ObjParser.parseFromToken]
-  by_cases hr : (0 ≤ i && i ≤ 9999999) = true
+  unfold ObjParser.intArm ObjParser.intArmW
+  by_cases hr : (0 ≤ i && i ≤ 4294967295) = true
   · simp [hr] at h
     simp only [hr, Bool.not_true, Bool.false_eq_true, if_false]
     unfold libIntFollowOk at h
@@ -64,8 +65,8 @@ theorem lib_pft_int (f : Nat) (i : Int) (rest : List Nat)
 theorem lib_next_R (rest : List Nat) : Lexer.next (32 :: 82 :: rest) = .ok (.name [82], rest) := by
   simp [Lexer.next, Lexer.nextToken, Lexer.isAsciiWs, Lexer.isDigit]
 
-/-- `n g R` is recognised by the look-ahead when `n ≤ 9 999 999` and `g ≤ 65535` -/
-theorem lib_pft_ref (f n g : Nat) (rest : List Nat) (hn : n ≤ 9999999) (hg : g ≤ 65535) :
+/-- `n g R` is recognised by the look-ahead when `n ≤ u32::MAX` and `g ≤ 65535` -/
+theorem lib_pft_ref (f n g : Nat) (rest : List Nat) (hn : n ≤ 4294967295) (hg : g ≤ 65535) :
     ObjParser.parseFromToken (f + 1) (.int (Int.ofNat n)) (32 :: (showNat g ++ 32 :: 82 :: rest))
       = .ok (.ref n g, rest) := by
   obtain ⟨b, r, hbr, hbd⟩ := allDigits_head _ (showNat_digits g) (showNat_ne_nil g)
@@ -79,7 +80,8 @@ theorem lib_pft_ref (f n g : Nat) (rest : List Nat) (hn : n ≤ 9999999) (hg : g
     rw [hbr] at this
     simpa using this
   rw [ObjParser.parseFromToken]
-  have hr1 : (0 ≤ (Int.ofNat n) && (Int.ofNat n) ≤ 9999999) = true := by simp; omega
+  unfold ObjParser.intArm ObjParser.intArmW
+  have hr1 : (0 ≤ (Int.ofNat n) && (Int.ofNat n) ≤ 4294967295) = true := by simp; omega
   have hr2 : (0 ≤ (Int.ofNat g) && (Int.ofNat g) ≤ 65535) = true := by simp; omega
   simp only [hr1, Bool.not_true, Bool.false_eq_true, if_false, h1, hr2, if_true, lib_next_R]
   simp
@@ -108,7 +110,7 @@ theorem lib_dectok (f : Nat) (tok rest : List Nat) (hdec : IsDecTok tok = true)
     (hr : libEnds rest = true)
     (hint : Syntax.isIntTok tok = true →
       inI64 (Syntax.intVal tok) = true ∧
-        (!(0 ≤ Syntax.intVal tok && Syntax.intVal tok ≤ 9999999) || libIntFollowOk rest) = true) :
+        (!(0 ≤ Syntax.intVal tok && Syntax.intVal tok ≤ 4294967295) || libIntFollowOk rest) = true) :
     ∃ t r1, Lexer.next (tok ++ rest) = .ok (t, r1) ∧ (t == Token.arrayEnd) = false ∧
       t.isComment = false ∧
       ObjParser.parseFromToken (f + 1) t r1 =
